@@ -15,9 +15,10 @@ type ExprOpts struct {
 
 // LeafPool prepares leaf candidates from a dataset.
 type LeafPool struct {
-	D       *model.Data
-	Cols    []string
-	Unknown []string
+	D         *model.Data
+	Cols      []string
+	Unknown   []string
+	nulSplits []model.Expr
 }
 
 func NewLeafPool(d *model.Data) *LeafPool {
@@ -25,6 +26,18 @@ func NewLeafPool(d *model.Data) *LeafPool {
 	for _, c := range []string{"nope", "zz", "q", "A0", "unknown_col"} {
 		if !d.HasColumn(c) {
 			p.Unknown = append(p.Unknown, c)
+		}
+	}
+	for _, c := range p.Cols {
+		if len(p.nulSplits) > 40 {
+			break
+		}
+		for _, v := range d.Values(c) {
+			if i := strings.IndexByte(v, 0); i >= 0 {
+				if uc := c + "\x00" + v[:i]; !d.HasColumn(uc) {
+					p.nulSplits = append(p.nulSplits, model.Eq(uc, v[i+1:]))
+				}
+			}
 		}
 	}
 	return p
@@ -35,6 +48,12 @@ func (p *LeafPool) Leaf(t *rapid.T, o ExprOpts) model.Expr {
 	k := rapid.IntRange(0, 99).Draw(t, "leafkind")
 	if len(p.Cols) == 0 || (o.UnknownPct > 0 && k < o.UnknownPct) {
 		// a dataset without any column only admits unknown-column leaves
+		if len(p.nulSplits) > 0 && rapid.Bool().Draw(t, "nulsplit") {
+			// an unknown column that is "column NUL value-prefix" of an existing
+			// pair, compared with the rest of that value: both leaves hash alike
+			// wherever column and value are joined with a NUL
+			return p.nulSplits[rapid.IntRange(0, len(p.nulSplits)-1).Draw(t, "nulsplitidx")]
+		}
 		return model.Eq(rapid.SampledFrom(p.Unknown).Draw(t, "ucol"), Value().Draw(t, "uval"))
 	}
 	c := rapid.SampledFrom(p.Cols).Draw(t, "lcol")
@@ -208,6 +227,16 @@ func (p *LeafPool) Confuse(t *rapid.T, pool []model.Expr, o ExprOpts) model.Expr
 		}
 		return model.Or(a, model.And(b, c))
 	default:
+		if len(p.nulSplits) > 0 && rapid.Bool().Draw(t, "nultwin") {
+			// the known leaf first, its NUL-split twin on an unknown column later
+			tw := p.nulSplits[rapid.IntRange(0, len(p.nulSplits)-1).Draw(t, "nultwinidx")]
+			i := strings.LastIndex(tw.Col, "\x00")
+			known := model.Eq(tw.Col[:i], tw.Col[i+1:]+"\x00"+tw.Val)
+			if rapid.Bool().Draw(t, "nultwinwhich") {
+				return known
+			}
+			return tw
+		}
 		return p.Expr(t, o)
 	}
 }
